@@ -145,6 +145,7 @@ fn execute(x: &Exec<'_>, text: &str, vars: &J, op_name: Option<&str>, subscripti
     let responses: Vec<Response> = catch(|| match (subscription, x.schema) {
         (true, AnySchema::S1(s)) => vh_core::vsched::block_on(s.execute_stream(req).take(32).collect::<Vec<_>>()),
         (true, AnySchema::Dyn(s)) => vh_core::vsched::block_on(s.execute_stream(req).take(32).collect::<Vec<_>>()),
+        (true, AnySchema::Gen(s)) => vh_core::vsched::block_on(s.execute_stream(req).take(32).collect::<Vec<_>>()),
         (false, s) => vec![s.execute(req)],
     })?;
     EXECUTED.fetch_add(1, Ordering::Relaxed);
